@@ -41,6 +41,7 @@ func init() {
 			ruleC01R10(r)
 			ruleNoAliasAfterTruncate(r, "R11", "/iscp")
 			ruleDispatchLoopsSurvive(r, "R12", "/wire", "/iscp") // every result of a batched ack reaches its waiter
+			ruleC01R13(r)
 			r.borrow("C20", func() { ruleC20P5(r, cut) })        // what counts as an empty buffer decides whether buffered points are ever sent and acknowledged
 		},
 	})
@@ -135,7 +136,7 @@ func upstreamMuKey(fn *ssa.Function) string {
 	if len(fn.Params) == 0 {
 		return ""
 	}
-	return fn.Params[0].Name() + ".mu"
+	return recvVarName(fn) + ".mu"
 }
 
 func ruleC01R1(r *Run, le *LockEngine, cut *cutInfo) {
@@ -443,31 +444,64 @@ func ruleC01R5(r *Run) {
 	if drainCall == nil || closeCall == nil {
 		r.Check(name+" drains", false, p.pos(closeFn.Pos()), name, fmt.Sprintf("drain call found: %v; close-request call found: %v", drainCall != nil, closeCall != nil))
 	} else {
-		// every path from entry to closeCall that avoids drainCall must take the 'was resuming' edge
-		var resIf *ssa.If
+		// evaluated: the first call on the stream's status holder in Close (Swap(Draining), or a helper around it) is
+		// run from each status; with its results the branches of Close are decided, and the drain must lie on every
+		// path to the close request when the stream was Connected and on none when it was Resuming (there is no live
+		// stream to drain then, and the drain would wait for a flush loop that is not running)
+		_ = resuming
+		fld := r.field("/iscp", "streamState", "current")
+		holder := r.named("/iscp", "streamState")
+		var first *ssa.Call
 		allInstrs(closeFn, func(ins ssa.Instruction) {
-			if ifs, ok := ins.(*ssa.If); ok {
-				if bo, ok := ifs.Cond.(*ssa.BinOp); ok {
-					if v, isC := constInt(bo.Y); isC && v == resuming && (bo.Op == token.NEQ || bo.Op == token.EQL) {
-						resIf = ifs
-					}
-				}
+			c, ok := ins.(*ssa.Call)
+			if !ok || first != nil {
+				return
+			}
+			if cal := c.Call.StaticCallee(); cal != nil && cal.Signature.Recv() != nil && namedOf(cal.Signature.Recv().Type()) == holder && dominatesInstr(c, closeCall) {
+				first = c
 			}
 		})
-		ok := false
-		detail := "no test against streamStatusResuming guards the drain"
-		if resIf != nil {
-			bo := resIf.Cond.(*ssa.BinOp)
-			notRes := resIf.Block().Succs[0]
-			if bo.Op == token.EQL {
-				notRes = resIf.Block().Succs[1]
+		connected, okC := p.enumConst("/iscp", "streamStatusConnected")
+		resumingV, okR := p.enumConst("/iscp", "streamStatusResuming")
+		if first == nil || fld == nil || !okC || !okR {
+			r.Undecided(name+" drains", "the status call at the head of Close or the status constants were not found")
+		} else {
+			verdict := func(cur int64) (string, string) {
+				outs, err := stateOutcomes(first, fld, cur)
+				if err != "" {
+					return "", err
+				}
+				res := ""
+				for _, o := range outs {
+					known := map[ssa.Value]stVal{}
+					if len(o.rets) == 1 {
+						known[first] = o.rets[0]
+					}
+					if first.Referrers() != nil {
+						for _, ref := range *first.Referrers() {
+							if ex, isEx := ref.(*ssa.Extract); isEx && ex.Index < len(o.rets) {
+								known[ex] = o.rets[ex.Index]
+							}
+						}
+					}
+					v := pathsFrom(first, known, drainCall, closeCall)
+					if res == "" {
+						res = v
+					} else if res != v {
+						res = "mixed"
+					}
+				}
+				return res, ""
 			}
-			// from the not-resuming successor, closeCall unreachable without drainCall
-			w := reachesWithoutFromBlock(notRes, func(ins ssa.Instruction) bool { return ins == closeCall }, func(ins ssa.Instruction) bool { return ins == drainCall })
-			ok = w == nil && resIf.Block().Dominates(closeCall.Block())
-			detail = fmt.Sprintf("on the not-resuming edge the close request is reachable without the drain: %v", w != nil)
+			vc, e1 := verdict(connected)
+			vr, e2 := verdict(resumingV)
+			if e1 != "" || e2 != "" {
+				r.Undecided(name+" drains", "the status call at the head of Close could not be evaluated: "+e1+e2)
+			} else {
+				r.Check(name+" drains", vc == "all" && vr == "none", posOf(p, closeCall), name,
+					fmt.Sprintf("evaluated from Connected the drain lies on %s path(s) to the close request (wanted: all); from Resuming on %s (wanted: none — Close must not wait for a flush loop that is not running)", vc, vr))
+			}
 		}
-		r.Check(name+" drains", ok, posOf(p, closeCall), name, detail)
 	}
 	// drain: Flush dominates the cond wait and the return of nil after the 'already received' test
 	dname := fnName(drainFn)
@@ -877,5 +911,79 @@ func ruleC01R10(r *Run) {
 	})
 	if !found {
 		r.Undecided(fnName(w)+" timeout", "no context.WithTimeout call found in withAckTimeoutCh")
+	}
+}
+
+// ruleC01R13: the event dispatcher ends only with an empty queue. Hooks (ack results, sent chunks, the closed event)
+// are queued for the dispatcher goroutine; its context ends right after Close. A context test made anywhere but on
+// the "queue is empty" edge ends the loop with hook calls still queued — the application never hears of chunks that
+// were acknowledged.
+func ruleC01R13(r *Run) {
+	r.Begin("R13", "the dispatcher drains before it stops: in the methods of iscp.eventDispatcher every look at the context (Done(), Err()) is made on the true edge of a test len(handler) == 0", 1)
+	p := r.P
+	n := 0
+	for _, fn := range p.Funcs {
+		if fnPkgPath(fn) != modPath+"/iscp" || recvTypeName(fn) != "eventDispatcher" || fn.Blocks == nil {
+			continue
+		}
+		name := fnName(fn)
+		// the emptiness tests of this function
+		type empt struct {
+			ifs *ssa.If
+			yes *ssa.BasicBlock
+		}
+		var tests []empt
+		allInstrs(fn, func(ins ssa.Instruction) {
+			ifs, ok := ins.(*ssa.If)
+			if !ok {
+				return
+			}
+			bo, isBo := ifs.Cond.(*ssa.BinOp)
+			if !isBo {
+				return
+			}
+			lenOf := func(v ssa.Value) bool {
+				c, isC := v.(*ssa.Call)
+				if !isC {
+					return false
+				}
+				b, isB := c.Call.Value.(*ssa.Builtin)
+				if !isB || b.Name() != "len" {
+					return false
+				}
+				ld, isLd := c.Call.Args[0].(*ssa.UnOp)
+				return isLd && ld.Op == token.MUL && fieldKeyOfAddr(ld.X) == "/iscp.eventDispatcher.handler"
+			}
+			k0 := func(v ssa.Value, want int64) bool { k, isK := constInt(v); return isK && k == want }
+			switch {
+			case bo.Op == token.EQL && lenOf(bo.X) && k0(bo.Y, 0):
+				tests = append(tests, empt{ifs, ifs.Block().Succs[0]})
+			case bo.Op == token.NEQ && lenOf(bo.X) && k0(bo.Y, 0):
+				tests = append(tests, empt{ifs, ifs.Block().Succs[1]})
+			case bo.Op == token.LSS && lenOf(bo.X) && k0(bo.Y, 1):
+				tests = append(tests, empt{ifs, ifs.Block().Succs[0]})
+			case bo.Op == token.GTR && lenOf(bo.X) && k0(bo.Y, 0):
+				tests = append(tests, empt{ifs, ifs.Block().Succs[1]})
+			}
+		})
+		k := 0
+		allInstrs(fn, func(ins ssa.Instruction) {
+			c, ok := ins.(*ssa.Call)
+			if !ok || !c.Call.IsInvoke() || !isContextType(c.Call.Value.Type()) || (c.Call.Method.Name() != "Done" && c.Call.Method.Name() != "Err") {
+				return
+			}
+			k++
+			n++
+			okE := false
+			for _, t := range tests {
+				if edgeDominates(t.ifs.Block(), t.yes, c.Block()) {
+					okE = true
+				}
+			}
+			r.Check(fmt.Sprintf("%s context look#%d only with an empty queue", name, k), okE, posOf(p, c), name, "the dispatcher looks at its context outside the 'queue is empty' edge: when the context ends while handlers are queued (they were added during the last batch) the loop stops and they are never run")
+		})
+	}
+	if n == 0 {
+		r.Undecided("dispatcher context tests", "no method of eventDispatcher looks at a context")
 	}
 }
